@@ -10,8 +10,10 @@ package main
 //   * G1Consts.lean  — protocol-version constants.
 
 import (
+	"bytes"
 	"fmt"
 	"go/ast"
+	"go/printer"
 	"go/token"
 	"sort"
 	"strings"
@@ -520,6 +522,61 @@ func g1DepositRuleCases() [][2]string {
 	return res
 }
 
+func g1Src(n ast.Node) string {
+	var b bytes.Buffer
+	if err := printer.Fprint(&b, fset, n); err != nil {
+		fatal("printer: %v", err)
+	}
+	return strings.Join(strings.Fields(b.String()), " ")
+}
+
+// g1PoolDepositGuard reads, from an era's UtxoValidateValueNotConservedUtxo, how the pool
+// registration case decides that a deposit is due: the names the results of
+// `ls.PoolCurrentState(...)` are bound to, and the init statement and condition of the
+// `if` that guards the addition of PoolDeposit.
+func g1PoolDepositGuard(era string) [3]string {
+	p := loadPkg("ledger/" + era)
+	fd := findFunc(p, "", "UtxoValidateValueNotConservedUtxo")
+	if fd == nil || fd.Body == nil {
+		fatal("g1 pool guard: ledger/%s: function not found", era)
+	}
+	res := [3]string{"?", "?", "?"}
+	ast.Inspect(fd.Body, func(n ast.Node) bool {
+		switch x := n.(type) {
+		case *ast.AssignStmt:
+			if len(x.Rhs) == 1 {
+				if c, ok := x.Rhs[0].(*ast.CallExpr); ok {
+					if sel, ok := c.Fun.(*ast.SelectorExpr); ok && sel.Sel.Name == "PoolCurrentState" {
+						names := []string{}
+						for _, l := range x.Lhs {
+							names = append(names, g1Src(l))
+						}
+						res[0] = strings.Join(names, ",")
+					}
+				}
+			}
+		case *ast.IfStmt:
+			uses := false
+			ast.Inspect(x.Body, func(m ast.Node) bool {
+				if sel, ok := m.(*ast.SelectorExpr); ok && sel.Sel.Name == "PoolDeposit" {
+					uses = true
+				}
+				return true
+			})
+			if uses {
+				if x.Init != nil {
+					res[1] = g1Src(x.Init)
+				} else {
+					res[1] = ""
+				}
+				res[2] = g1Src(x.Cond)
+			}
+		}
+		return true
+	})
+	return res
+}
+
 // g1PkgDirs maps a package qualifier used in rule files to its directory.
 var g1PkgDirs = map[string]string{"common": "ledger/common", "shelley": "ledger/shelley", "conway": "ledger/conway"}
 
@@ -667,6 +724,15 @@ func init() {
 			}
 			l.pf("/-- conway.UtxoValidateCertificateDeposits: (certificate type, what its amount is compared with) -/\n")
 			l.pf("def depositRuleCases : List (String × String) := [%s]\n\n", strings.Join(parts, ", "))
+		}
+		{
+			parts := []string{}
+			for _, e := range []string{"shelley", "mary", "alonzo", "babbage", "conway"} {
+				g := g1PoolDepositGuard(e)
+				parts = append(parts, fmt.Sprintf("(\"%s\", %q, %q, %q)", e, g[0], g[1], g[2]))
+			}
+			l.pf("/-- per era: names bound to the results of ls.PoolCurrentState, init statement and condition of the `if` guarding the PoolDeposit addition -/\n")
+			l.pf("def poolDepositGuard : List (String × String × String × String) := [%s]\n\n", strings.Join(parts, ", "))
 		}
 		g1CondFact(l, "ledger/conway", "UtxoValidateWithdrawals", "protocolMajor", "withdrawalsGateSkipped")
 		g1Delegations(l, "withdrawalsDelegation", "UtxoValidateWithdrawals", []string{"conway"})
